@@ -30,8 +30,11 @@ type c09Op struct {
 	Spin   int
 	Limit  int
 	Future bool
-	Src    string
-	ast    types.MalType
+	// Fuse > 0: the operation runs under a context of its own that is cancelled at the Fuse-th hook point
+	// (evaluation step or yield) the thread passes after invoking it
+	Fuse int
+	Src  string
+	ast  types.MalType
 }
 
 type c09Thread struct {
@@ -48,10 +51,12 @@ func init() { register(c09{}) }
 var c09Kinds = []string{"swap-cons", "deref", "reset", "swap-conj", "swap-wide", "swap-throw", "swap-typeerr",
 	"swap-reads-other", "swap-derefs-self", "swap-updates-other", "swap-resets-other", "gensym", "memo",
 	"deref-fn", "swap-extra-args", "swap-late-throw", "swap-derefs-self-wide", "swap-in-let", "reset-computed", "swap-bounded", "swap-extra-args3",
-	"swap-vec", "swap-list", "swap-conj-wide", "swap-panic", "swap-panic-params", "vswap-assoc", "vswap-assoc-throw", "vswap-assoc-wide", "vderef"}
+	"swap-vec", "swap-list", "swap-conj-wide", "swap-panic", "swap-panic-params", "vswap-assoc", "vswap-assoc-throw", "vswap-assoc-wide", "vderef",
+	"vswap-update-selfread", "vswap-update-selfread-wide"}
 var c09Weights = []int{5, 4, 3, 2, 3, 1, 1, 2, 1, 2, 1, 1, 3,
 	2, 2, 1, 1, 1, 1, 3, 2,
-	2, 1, 2, 1, 1, 2, 1, 1, 1}
+	2, 1, 2, 1, 1, 2, 1, 1, 1,
+	2, 1}
 
 func atomName(i int) string { return "a" + strconv.Itoa(i) }
 
@@ -132,6 +137,15 @@ func (op *c09Op) build() {
 	case "vswap-assoc-throw":
 		// builds its candidate with assoc, then fails: the atom's vector must be untouched
 		src = "(swap! va" + strconv.Itoa(op.Atom) + " (fn [v] (do (assoc v " + strconv.Itoa(op.Tok%3) + " " + k + ") (throw " + k + "))))"
+	case "vswap-update-selfread":
+		// the update function is a builtin (update) whose callback reads the atom being swapped
+		va := "va" + strconv.Itoa(op.Atom)
+		id := nid("deref", va, "")
+		src = "(swap! " + va + " update " + strconv.Itoa(op.Tok%3) + " (fn [x] (do (h-begin " + id + ") (h-end " + id + " @" + va + ") " + k + ")))"
+	case "vswap-update-selfread-wide":
+		va := "va" + strconv.Itoa(op.Atom)
+		id := nid("deref", va, "")
+		src = "(swap! " + va + " update " + strconv.Itoa(op.Tok%3) + " (fn [x] (do (spin " + strconv.Itoa(op.Spin%9) + ") (h-begin " + id + ") (h-end " + id + " (deref " + va + ")) (spin 2) " + k + ")))"
 	case "vderef":
 		src = "@va" + strconv.Itoa(op.Atom)
 	case "gensym":
@@ -152,6 +166,9 @@ type atomIn struct {
 	Kind  string // deref | reset | swap-cons | swap-fail | swap-bounded
 	Tok   string
 	Limit int
+	// AnyOut: the operation took effect but what it returned is not constrained (it ended with the timeout error of
+	// its own cancelled context after its value had been installed)
+	AnyOut bool
 }
 
 // listLen counts the elements of a canonical flat sequence.
@@ -188,9 +205,23 @@ func conjCanon(tok, seq string) string {
 var atomModel = porcupine.Model{
 	Init: func() interface{} { return "()" },
 	Step: func(state, input, output interface{}) (bool, interface{}) {
-		st := state.(string)
+		ok, v := atomStep(state.(string), input.(atomIn), output.(string))
+		return ok, v
+	},
+	Equal: func(a, b interface{}) bool { return a.(string) == b.(string) },
+	DescribeOperation: func(input, output interface{}) string {
 		in := input.(atomIn)
-		out := output.(string)
+		return in.Kind + "(" + in.Tok + ") -> " + output.(string)
+	},
+}
+
+func atomStep(st string, in atomIn, out string) (bool, string) {
+	if in.AnyOut {
+		in.AnyOut = false
+		_, v := atomStep(st, in, out)
+		return true, v
+	}
+	{
 		switch in.Kind {
 		case "deref":
 			return out == st, st
@@ -229,12 +260,7 @@ var atomModel = porcupine.Model{
 			return out == v, v
 		}
 		return false, st
-	},
-	Equal: func(a, b interface{}) bool { return a.(string) == b.(string) },
-	DescribeOperation: func(input, output interface{}) string {
-		in := input.(atomIn)
-		return in.Kind + "(" + in.Tok + ") -> " + output.(string)
-	},
+	}
 }
 
 type c09World struct {
@@ -251,7 +277,19 @@ func (w *c09World) taskFn(idx int) func(*Task) {
 		th := w.threads[idx]
 		for _, op := range th.ops {
 			w.s.Rec("inv", op.ID, "", 0)
-			res, err := lisp.EVAL(th.ctx, op.ast, w.env)
+			ctx := th.ctx
+			var cancel context.CancelFunc
+			if op.Fuse > 0 {
+				ctx, cancel = context.WithCancel(th.ctx)
+				t.SetFuse(op.Fuse, cancel)
+			}
+			res, err := lisp.EVAL(ctx, op.ast, w.env)
+			if cancel != nil {
+				if t.SetFuse(0, nil) {
+					w.s.Rec("fuse-fired", op.ID, "", 0)
+				}
+				cancel()
+			}
 			if err != nil {
 				w.s.Rec("ret", op.ID, canonErrQuiet(err), 1)
 			} else {
@@ -365,10 +403,21 @@ func (c09) Run(tp *Tape, opt RunOpt) *RunOut {
 			op.Spin = 3 + tp.Draw(LaneWork, 40)
 			op.Limit = tp.Draw(LaneWork, 5)
 			op.Future = tp.Chance(LaneWork, 1, 6)
+			if !op.Future && tp.Chance(LaneFault, 1, 8) {
+				switch op.Kind {
+				case "swap-cons", "swap-conj", "swap-wide", "swap-conj-wide", "reset", "deref", "vswap-assoc", "vswap-assoc-wide", "swap-in-let", "swap-extra-args":
+					// the fault: this operation's context is cancelled somewhere inside it
+					op.Fuse = 1 + tp.Draw(LaneFault, []int{4, 12, 40, 120}[tp.Draw(LaneFault, 4)])
+				}
+			}
 			op.build()
 			ops[op.ID] = op
 			th.ops = append(th.ops, op)
-			rendering = append(rendering, "thread "+strconv.Itoa(ti)+": "+op.Src)
+			if op.Fuse > 0 {
+				rendering = append(rendering, "thread "+strconv.Itoa(ti)+": "+op.Src+"   ; context cancelled at hook point "+strconv.Itoa(op.Fuse))
+			} else {
+				rendering = append(rendering, "thread "+strconv.Itoa(ti)+": "+op.Src)
+			}
 		}
 		w.threads = append(w.threads, th)
 	}
@@ -406,6 +455,8 @@ func (c09) Run(tp *Tape, opt RunOpt) *RunOut {
 		label    string
 		topKind  string
 		isErr    bool
+		tok      string
+		timedOut bool // ended with the timeout error of its own cancelled context
 		taskName string
 	}
 	var recs []*opRec
@@ -437,7 +488,7 @@ func (c09) Run(tp *Tape, opt RunOpt) *RunOut {
 				r.in = atomIn{Kind: "swap-vec"}
 			case "swap-list":
 				r.in = atomIn{Kind: "swap-list"}
-			case "vswap-assoc", "vswap-assoc-wide":
+			case "vswap-assoc", "vswap-assoc-wide", "vswap-update-selfread", "vswap-update-selfread-wide":
 				r.atom = vaBase + op.Atom
 				r.in = atomIn{Kind: "vassoc", Tok: strconv.Itoa(op.Tok), Limit: op.Tok % 3}
 			case "vswap-assoc-throw":
@@ -485,7 +536,12 @@ func (c09) Run(tp *Tape, opt RunOpt) *RunOut {
 					out.Violations = append(out.Violations, Violation{"C09.failed-update", "swap-typeerr", op.Src + " returned " + ev.B + " instead of an error"})
 				}
 			default:
-				if r.isErr && op.Kind != "swap-bounded" && op.Kind != "vswap-assoc-throw" {
+				if r.isErr && op.Fuse > 0 && isTimeoutText(ev.B) {
+					// cancelled by the injected fault: whether it took effect is decided below from what others saw
+					r.timedOut = true
+					r.tok = strconv.Itoa(op.Tok)
+					out.Stats["fault:operation-context-cancelled"]++
+				} else if r.isErr && op.Kind != "swap-bounded" && op.Kind != "vswap-assoc-throw" {
 					// an operation whose update function cannot fail returned an error
 					out.Violations = append(out.Violations, Violation{"C09.spurious-error", op.Kind, op.Src + " failed: " + ev.B})
 					r.in = atomIn{Kind: "swap-fail"}
@@ -501,6 +557,10 @@ func (c09) Run(tp *Tape, opt RunOpt) *RunOut {
 			key := strconv.Itoa(ev.Task) + "|" + id
 			if ev.Kind == "begin" {
 				ai, _ := strconv.Atoi(parts[2][1:])
+				if strings.HasPrefix(parts[2], "va") {
+					ai, _ = strconv.Atoi(parts[2][2:])
+					ai += vaBase
+				}
 				r := &opRec{atom: ai, call: ev.Seq, label: "nested " + id, in: atomIn{Kind: parts[1], Tok: parts[3]}}
 				openNested[key] = append(openNested[key], r)
 				recs = append(recs, r)
@@ -518,6 +578,32 @@ func (c09) Run(tp *Tape, opt RunOpt) *RunOut {
 		}
 	}
 	_ = taskCurOp
+	// an operation that ended with the timeout error of its own cancelled context either took effect or did not:
+	// every installed value carries a unique token, so what the other operations (and the final reads) returned
+	// decides which. A deref that timed out is a no-op.
+	for _, r := range recs {
+		if !r.timedOut {
+			continue
+		}
+		seen := false
+		for _, o := range recs {
+			if o == r || !o.done || o.atom != r.atom || o.isErr {
+				continue
+			}
+			for _, el := range seqElems(o.out) {
+				if el == r.tok {
+					seen = true
+				}
+			}
+		}
+		if seen && r.in.Kind != "deref" {
+			r.in.AnyOut = true
+			out.Stats["cancelled_operation_took_effect"]++
+		} else {
+			r.in = atomIn{Kind: "swap-fail"}
+			out.Stats["cancelled_operation_without_effect"]++
+		}
+	}
 
 	if s.Hang != nil {
 		// which operations were in flight: top-level kinds of unfinished ops, sorted
@@ -739,3 +825,5 @@ func (c09) Run(tp *Tape, opt RunOpt) *RunOut {
 	}
 	return out
 }
+
+func isTimeoutText(s string) bool { return strings.Contains(s, "timeout") }
